@@ -72,10 +72,11 @@ theorem C01_shape_remote :
 
 /-- every target / event kind is in the lists the three theorems range over -/
 theorem all_targets (t : Target) : t ∈ Target.all := by cases t <;> simp [Target.all]
-theorem all_asyncs (a : Async) : a ∈ Async.all := by
+theorem all_asyncs (a : Async) (h : ∀ d, a ≠ .deferred d) : a ∈ Async.all := by
   cases a with
   | kill => simp [Async.all]
   | raiseWte v => cases v <;> simp [Async.all]
+  | deferred d => exact absurd rfl (h d)
 
 /-- **C01 stability (process kind).** Once the first accessor after death has drained the pipe,
     every later accessor returns the same observation - for any pipe content, decodable or
